@@ -11,7 +11,8 @@ from vlib.oracle import positions
 PROPERTY = 'C20'
 RULE = ('cases are (table, label mode): tables exhaustive n*m <= 12 (quick) / <= 16 (thorough) and Hypothesis fill '
         'families incl. one- and two-concept lattices and multi-label concepts; mode (a) token callbacks that record '
-        'the exact name tuple they receive and return a fresh token, mode (b) default callbacks with drawn labels '
+        'the exact name tuple they receive and return a fresh token (also wrapped as graphviz.nohtml("<token>"), which must '
+        'come out as a quoted literal), mode (b) default callbacks with drawn labels '
         'over Unicode categories L/M/N/P/S/Zs minus backslash, <, > (Hypothesis cases) or the o<k>/p<k> labels. '
         'Oracle: an independent DOT statement parser reads graphviz().body (and .source is checked to embed the same '
         'lines): exactly one node statement per concept named c<index>; the multiset of plain edges == {(c<i>, c<j>) '
@@ -41,9 +42,21 @@ def check_mode(b, case, ctx, plain, mode):
             return f'T{kind}{len(calls[kind]) - 1}'
         return make
 
+    def nohtml_tok(kind):
+        import graphviz
+        inner = tok(kind)
+
+        def make(names):
+            # the graphviz package's documented way to get a literal '<...>' label
+            return graphviz.nohtml('<' + inner(names) + '>')
+        return make
+
     q = lambda: {'table': plain, 'mode': mode}
     if mode == 'token':
         dot = ctx.call('graphviz(token)', q, lambda: lat.graphviz(make_object_label=tok('o'), make_property_label=tok('p')))
+    elif mode == 'nohtml':
+        dot = ctx.call('graphviz(nohtml)', q, lambda: lat.graphviz(make_object_label=nohtml_tok('o'),
+                                                                    make_property_label=nohtml_tok('p')))
     else:
         dot = ctx.call('graphviz', q, lat.graphviz)
     try:
@@ -76,7 +89,11 @@ def check_mode(b, case, ctx, plain, mode):
         for i, pos in at.items():
             names = tuple(names_of[t] for t in pos)
             text = got[f'c{i}']
-            if mode == 'token':
+            if mode == 'nohtml':
+                ctx.check(isinstance(text, dotparse.QStr) and text.startswith('<') and text.endswith('>'), 'label-literal', q,
+                          lambda: f'label {text!r} on c{i} produced as nohtml("<...>") is not emitted as a quoted literal')
+                text = text[1:-1]
+            if mode in ('token', 'nohtml'):
                 ctx.check(text.startswith('T' + kind) and text[2:].isdigit() and int(text[2:]) < len(calls[kind]),
                           'label-token', q, lambda: f'label {text!r} on c{i} was not produced by the callback')
                 ctx.check(calls[kind][int(text[2:])] == names, 'label-names', q,
@@ -84,7 +101,7 @@ def check_mode(b, case, ctx, plain, mode):
             else:
                 ctx.check(text == ' '.join(names), 'label-text', q,
                           lambda: f'label on c{i} is {text!r}, want {" ".join(names)!r}')
-    if mode == 'token':
+    if mode in ('token', 'nohtml'):
         ctx.check(len(calls['o']) == len(objs_at) and len(calls['p']) == len(props_at), 'callback-count', q,
                   'label callbacks called a different number of times than there are labelled concepts')
     src = dot.source
@@ -104,7 +121,7 @@ def check_one(case, ctx, deep):
         k = len(b.ref.concepts)
         multi = (any(len(v) >= 2 for v in objs_at.values()) or any(len(v) >= 2 for v in props_at.values())
                  or bool(set(objs_at) & set(props_at)))
-        for mode in ('token', 'default', 'default-again'):
+        for mode in ('token', 'nohtml', 'default', 'default-again'):
             if rep == 0:
                 ctx.case({'table': plain, 'mode': mode}, k >= 3 and multi,
                          [lib.size_bucket(k), 'mode:' + mode] + (['multi-or-both-labels'] if multi else []))
